@@ -374,13 +374,11 @@ def match_known(known, pid, hist_lines, fail):
 
 LEVELS = {
     # full statement proved in Lean (for the scope stated in level_note)
-    "C01": "proof", "C02": "proof", "C03": "proof", "C05": "proof", "C06": "proof", "C07": "proof", "C08": "proof", "C09": "proof", "C10": "proof", "C11": "proof", "C12": "proof",
+    "C01": "proof", "C02": "proof", "C03": "proof", "C04": "proof", "C05": "proof", "C06": "proof", "C07": "proof", "C08": "proof", "C09": "proof", "C10": "proof", "C11": "proof", "C12": "proof",
     # Lean model + proved fragments; the full statement is kept as a `def …_statement` and is decided on the
     # implementation side by the oracle under exhaustive / random exploration
-    "C04": "other",
 }
 EXPLANATIONS = {
-    "C04": "Lean: proved: Pair returns an entry of the held leaf, cursor operations never write, the hop is lock-next-then-unlock-current; the successor-query statement is a def. Decided by the linearizability checker (Scan as successor query) under all schedules of the writer-next-to-cursor catalogue and random schedules.",
 }
 
 
